@@ -1426,6 +1426,28 @@ pub fn all_cases(tier: Tier) -> Vec<Box<dyn BoxCase>> {
     for n in 0..=2usize {
         add!("moof", format!("trafs={}", n), |v: &mut V| g_moof(n, v));
     }
+    // long strings with one multi-byte character at every alignment around 256 and 512 bytes
+    for ver in [0u8, 1] {
+        for lead in [253usize, 254, 255, 256, 509, 510, 511, 512] {
+            for which in 0..2u8 {
+                let shape = format!("v{} long_string lead={} in {}", ver, lead, if which == 0 { "scheme" } else { "value" });
+                modes(|v| {
+                    if v.mode > 2 {
+                        return; // the string shape is the subject here: three value modes suffice
+                    }
+                    let (mut l, _) = g_emsg(ver, 1, v);
+                    let s = format!("{}{}{}", "a".repeat(lead), ["\u{e9}", "\u{20ac}", "\u{1F600}"][v.mode], "b".repeat(5));
+                    if which == 0 {
+                        l.scheme_id_uri = s;
+                    } else {
+                        l.value = s;
+                    }
+                    let e = rb::Emsg { version: ver, flags: l.flags, timescale: l.timescale, presentation_time: l.presentation_time.unwrap_or(0), presentation_time_delta: l.presentation_time_delta.unwrap_or(0), event_duration: l.event_duration, id: l.id, scheme: l.scheme_id_uri.clone(), value: l.value.clone(), data: l.message_data.clone() };
+                    out.push(case("emsg", format!("{} mode={}", shape, v.mode), l, rb::emsg(&e)));
+                });
+            }
+        }
+    }
     for (ty, len) in [(0u32, 4usize), (1, 0), (1, 7), (13, 300), (21, 2)] {
         add!("data", format!("type={} len={}", ty, len), |v: &mut V| g_data(ty, len, v));
     }
